@@ -77,8 +77,8 @@ ADDED = {
  "C11": " Added later: intermediate-state sparsity - inputs built by CRT so that their residues modulo the partial factors X^m - zeta have each half-block zero or dense (all patterns up to 8 halves, singles/pairs/periodic beyond), forward and inverse, every n >= 8.",
  "C13": " Added later: a scale ladder (operands scaled by 2^k, k = -64..14); split/merge on transforms of real polynomials chosen in the transform domain (real / imaginary / complex / zero on partner slots), against the definition over partner slots.",
  "C14": " Added later: a length ladder (every length 0..=1100, thorough 0..=4200, around 2^13..2^20, two contents); scripted XOF streams through the XOF hook (constant accepted values incl. multiples of q, runs of k rejected chunks at four positions for k up to 2048, r rejections spread over n + r chunks, periodic rejections) against Algorithm 3 on the same stream.",
- "C15": " Added later: single-bit flips also on the seeds whose first candidate does not fit the encoding (retry branch) and on the seed with the longest rejection run.",
- "C16": " Added later: engineered signatures of squared norm bound-1, bound, bound+1 through the reference verifier and ours; a message-length ladder in both interop directions; keys whose public polynomial has a coefficient 0 or q-1.",
+ "C15": " Added later: single-bit flips also on the seeds whose first candidate does not fit the encoding (retry branch) and on the seed with the longest rejection run; bit flips on the all-ones seed.",
+ "C16": " Added later: engineered signatures of squared norm bound-1, bound, bound+1 through the reference verifier and ours; a message-length ladder in both interop directions; keys whose public polynomial has a coefficient 0 or q-1; signatures at the edge of the fixed-size body (0..8 unused bits, compression retries).",
  "C17": " Added later: short unreduced pairs (F,G) = round(rho X^c (f,g)), rho in {1/2+, 3/4, 1-}, every coefficient shorter than the largest of (f,g), at every n.",
 }
 
